@@ -450,22 +450,26 @@ def run_c02(prop, tier):
         for fill in range(REAL_B - (30 if tier == "quick" else 60), REAL_B):
             jobs.append(["j%d" % (fill - 16 - 28), "e16", "e0", "e2"])
 
-        def one(ops):
+        # every fourth boundary program also with OVNI_TMPDIR (streams relocated at thread end)
+        jobs = [(ops, False) for ops in jobs] + [(ops, True) for ops in jobs[::4]]
+
+        def one(j):
+            ops, tmp = j
             cd = os.path.join(base, "c%d" % os.getpid())
             prog = proto(ops)
-            rc, err, log = run_case(exe, cd, prog)
+            rc, err, log = run_case(exe, cd, prog, tmpdir=tmp)
             msg = oracle(cd, log, rc, err)
             emsg = emu(cd) if msg is None else None
             shutil.rmtree(cd, ignore_errors=True)
             return msg, emsg
-        for ops, (msg, emsg) in zip(jobs, pmap(one, jobs)):
+        for (ops, tmp), (msg, emsg) in zip(jobs, pmap(one, jobs)):
             ctx.add(evaluations=1, transitions=len(ops) + 2, traces_validated_against_impl=1)
             if msg == "ABORTED":
                 continue
             if msg is not None or emsg is not None:
                 js = [int(o[1:]) for o in ops if o[0] == "j"]
-                ctx.violation("real capacity, conformant program %s: %s" % (proto(ops), msg or emsg),
-                              {"engine": "E1 rt_driver", "bufsz": None, "program": proto(ops), "short": "-", "oracle": "C02"},
+                ctx.violation("real capacity%s, conformant program %s: %s" % (" (OVNI_TMPDIR)" if tmp else "", proto(ops), msg or emsg),
+                              {"engine": "E1 rt_driver", "bufsz": None, "program": proto(ops), "short": "-", "oracle": "C02", "tmpdir": tmp},
                               {"kind": "proto-real", "room_after_jumbo": (REAL_B - 16 - js[0]) if js else None})
         ctx.add(states=len(list(room)))
         ctx.part("real-boundary", runs=len(jobs))
